@@ -108,28 +108,44 @@ pub fn unwrap_chunks(bytes: &[u8]) -> Result<Vec<(String, Vec<u8>)>, String> {
     Ok(res)
 }
 
+/// Deterministic 64-bit digest of a projection (SipHash with the fixed default keys), used to count DISTINCT cases.
+pub fn digest(v: &Value) -> String {
+    use std::hash::{Hash, Hasher};
+    let mut h = std::collections::hash_map::DefaultHasher::new();
+    v.to_string().hash(&mut h);
+    format!("{:016x}", h.finish())
+}
+
 // ------------------------------------------------------------------------------------------------ one case
 fn run_case(out: &mut Out, case: &str, cls: &str, buf: &Buffer) {
     out.ev(&json!({"ev":"reset","case":case,"cls":cls}));
     let src = doc_value(buf);
+    let h = digest(&src);
+    let ok = run_case_inner(out, case, cls, buf, src);
+    // short summary line: lets the check count distinct documents without parsing the bulk
+    out.ev(&json!({"ev":"sum","case":case,"h":h,"ok":ok as u8}));
+}
+
+fn run_case_inner(out: &mut Out, case: &str, cls: &str, buf: &Buffer, src: Value) -> bool {
     let mut opts = SaveOptions::default();
     opts.lossles_output = true;
     let saved = guard(|| buf.to_bytes("icy", &opts).map_err(|e| e.to_string()));
     let bytes = match saved {
         Ok(Ok(b)) => b,
-        Ok(Err(e)) => { out.ev(&json!({"ev":"doc","case":case,"cls":cls,"save":"err","load":"-","site":e,"src":src,"chunks":[],"back":{}})); return; }
-        Err(p) => { out.ev(&json!({"ev":"doc","case":case,"cls":cls,"save":"panic","load":"-","site":panic_site(&p),"line":p.line,"msg":p.msg,"src":src,"chunks":[],"back":{}})); return; }
+        Ok(Err(e)) => { out.ev(&json!({"ev":"doc","case":case,"cls":cls,"save":"err","load":"-","site":e,"src":src,"chunks":[],"back":{}})); return false; }
+        Err(p) => { out.ev(&json!({"ev":"doc","case":case,"cls":cls,"save":"panic","load":"-","site":panic_site(&p),"line":p.line,"msg":p.msg,"src":src,"chunks":[],"back":{}})); return false; }
     };
     let chunks: Vec<Value> = match unwrap_chunks(&bytes) {
         Ok(c) => c.into_iter().map(|(k, d)| json!({"kw": k.chars().map(|c| c as u32).collect::<Vec<_>>(), "d": d})).collect(),
-        Err(e) => { out.ev(&json!({"ev":"doc","case":case,"cls":cls,"save":"err","load":"-","site":format!("unreadable png: {e}"),"src":src,"chunks":[],"back":{}})); return; }
+        Err(e) => { out.ev(&json!({"ev":"doc","case":case,"cls":cls,"save":"err","load":"-","site":format!("unreadable png: {e}"),"src":src,"chunks":[],"back":{}})); return false; }
     };
     let loaded = guard(|| Buffer::from_bytes(Path::new("case.icy"), true, &bytes).map_err(|e| e.to_string()));
     match loaded {
-        Ok(Ok(back)) => out.ev(&json!({"ev":"doc","case":case,"cls":cls,"save":"ok","load":"ok","site":"","file_len":bytes.len(),"src":src,"chunks":chunks,"back":doc_value(&back)})),
+        Ok(Ok(back)) => { out.ev(&json!({"ev":"doc","case":case,"cls":cls,"save":"ok","load":"ok","site":"","file_len":bytes.len(),"src":src,"chunks":chunks,"back":doc_value(&back)})); return true; }
         Ok(Err(e)) => out.ev(&json!({"ev":"doc","case":case,"cls":cls,"save":"ok","load":"err","site":e,"src":src,"chunks":chunks,"back":{}})),
         Err(p) => out.ev(&json!({"ev":"doc","case":case,"cls":cls,"save":"ok","load":"panic","site":panic_site(&p),"line":p.line,"msg":p.msg,"src":src,"chunks":chunks,"back":{}})),
     }
+    false
 }
 
 // ------------------------------------------------------------------------------------------------ generators
